@@ -96,7 +96,15 @@ func hostileFields(t *Tape, seq int, sender, target string) (typ string, fs []Fi
 		case 5: // entries without their first field
 			g := groups[t.Draw(len(groups))]
 			fs = append(fs, FI(g[0], 2), F(48, word(t)), F(22, "8"))
-		case 6: // nested count inside the last entry
+		case 6: // nested count at the end of an entry that is not the last one
+			if t.Chance(1, 2) {
+				fs = append(fs, FI(146, 2), F(55, word(t)), F(711, []string{"1", "", "2", "x", "0"}[t.Draw(5)]), F(55, word(t)))
+				if t.Chance(1, 2) {
+					fs = append(fs, FI(711, 1), F(311, word(t)), F(457, []string{"1", ""}[t.Draw(2)]))
+				}
+				break
+			}
+			// nested count inside the last entry
 			fs = append(fs, FI(146, 1), F(55, word(t)), FI(711, 1+t.Draw(2)))
 			if t.Chance(1, 2) {
 				fs = append(fs, F(311, word(t)), FI(457, 1))
